@@ -194,7 +194,10 @@ def check(prop, tier, seed, a, workdir, t_start):
         defs = []
         label = None
         if fv:
-            defs.append('%s=%s' % fv)
+            if fv[0] == 'SHAPES':      # two-digit case code: shape of list a, shape of list b
+                defs += ['SHAPE_A=' + fv[1][0], 'SHAPE_B=' + fv[1][1]]
+            else:
+                defs.append('%s=%s' % fv)
             label = '%s=%s' % fv
         fs = [f for f in findings if f.get('group') == g.name and (f.get('cfg') in (None, cfg))]
         results = []
